@@ -124,6 +124,9 @@ def run_check(prop, tier, seed, only=None, nproc=None):
     known = load_known()
     violations = []; known_hits = {}; disagreements = []; validated = 0
     os.makedirs(os.path.join(VERIF, 'evidence', 'replays'), exist_ok=True)
+    if not only:
+        import glob
+        for old in glob.glob(os.path.join(VERIF, 'evidence', 'replays', prop + '-*.json')): os.unlink(old)
     seen_sig = {}
     for r in results:
         for c in r.get('cex', []):
